@@ -382,6 +382,9 @@ func (cs *ContractSet) parseHeader(c *Contract, rest string, defPkg string) erro
 	}
 	c.Name = fs[0]
 	c.Key = defPkg + "." + c.Name
+	if i := strings.LastIndex(c.Name, ":"); i >= 0 {
+		c.Name = c.Name[i+1:]
+	}
 	return nil
 }
 
@@ -416,6 +419,8 @@ func ghostKind(s string) *Kind {
 	switch s {
 	case "[]byte":
 		return &Kind{K: "slice", Elem: &Kind{K: "int", Lo: "0", Hi: "255"}}
+	case "[]int":
+		return &Kind{K: "slice", Elem: &Kind{K: "int"}}
 	case "int":
 		return &Kind{K: "int"}
 	case "bool":
